@@ -19,6 +19,18 @@ CLAIMED = {
         design="7 C20"),
 }
 
+CLAIMED["C01"] = dict(
+    text="Kernel-checked theorems over the tree-level model (writer/reader of utils.py, write.py, read.py transcribed function by "
+         "function): C01_save/C01_read/C01_roundtrip — for ALL well-formed rooted trees (any depth, branching, class assignment, names) "
+         "a whole-tree save into a fresh path succeeds, the file holds exactly one root group, and reading it back returns exactly the "
+         "saved tree; C01_node_at/C01_file_path/C01_tags — the node at tree path p is the group /<root>/<p> carrying its group type and class.",
+    note="Node bodies (datasets/metadata written by each class) are opaque at this level (their round-trip is C02-C04). Proved under "
+         "Tree.rootedWF, which excludes a child named like an object of its parent's body (the real writer raises there: "
+         "C01_counterexample_collision, recorded as known finding). emdpath string parsing is modelled and exercised by the correspondence, "
+         "theorems are stated on parsed paths. Not modelled: HDF5 link-name length limits, names with NUL.",
+    technique="Lean 4 structural-induction proof over hand-written model + differential correspondence (raw h5py walk and read-back)",
+    design="7 C01")
+
 NOT_YET = {}
 
 def main():
